@@ -5,6 +5,7 @@ Registered in gen.py GENERATORS as "c12state".  The raw extraction is also
 saved to build/c12_state.json for checks/c12.py (details of violations)."""
 import json
 import os
+import re
 
 import vcheck
 
@@ -55,6 +56,46 @@ def known_keys(prefix):
     """match keys of open C12 findings starting with prefix (the part after the prefix)."""
     return [k["match"][len(prefix):] for k in vcheck.load_known("C12")
             if k.get("status") == "open" and k.get("match", "").startswith(prefix)]
+
+
+# clone functions of the operations that take pipeline constants: (tag, file, function, key prefix of the open findings that
+# may excuse a shared-but-written region)
+CLONES = [
+    ("msl", "msl.applyPipelineConstants", "msl/internal/codegen/pipeline_constants.go", "applyPipelineConstants", "module-mutated:msl+pc:"),
+    ("ir", "ir.CloneModuleForOverrides", "ir/process_overrides.go", "CloneModuleForOverrides", "module-mutated:po:"),
+]
+_FRESH = re.compile(r"^(make\(|append\(\s*(\[\])?[\w.\[\]]+\(nil\)\s*,)")
+
+
+def clone_regions(tools, file, func):
+    """(copied, aliased): regions of the clone that the function re-allocates (`clone.P = make(..)` /
+    `append(T(nil), ..)` / `&local` where local was assigned from a dereference) and regions it assigns from the
+    source without a fresh allocation.  Purely syntactic (goextract assigns)."""
+    rc, so, se = vcheck.run_tool(tools["goextract"], [vcheck.REPO], inp=json.dumps(
+        [{"kind": "assigns", "file": file, "name": func, "recv": ""}]), timeout=120)
+    if rc != 0:
+        raise RuntimeError("goextract failed: " + se[-1000:])
+    acts = json.loads(so)[0]
+    if isinstance(acts, dict):
+        raise RuntimeError("goextract: %s not found in %s (anchor moved?)" % (func, file))
+    clone = srcv = None
+    for kind, lhs, rhs in acts:
+        if kind == "assign" and re.fullmatch(r"\w+", lhs) and re.fullmatch(r"\*\w+", rhs):
+            clone, srcv = lhs, rhs[1:]           # m := *module / dst := *src
+            break
+    if clone is None:
+        raise RuntimeError("%s: no shallow copy `x := *src` found" % func)
+    derefs = {lhs for kind, lhs, rhs in acts if kind == "assign" and re.fullmatch(r"\w+", lhs) and rhs.startswith("*")}
+    copied, aliased = [], []
+    for kind, lhs, rhs in acts:
+        if kind != "assign" or not lhs.startswith(clone + "."):
+            continue
+        path = re.sub(r"\[[^\]]*\]", "[]", lhs[len(clone) + 1:])
+        if lhs.endswith("]"):
+            continue                               # element of a container assigned above (struct copy / map entry)
+        fresh = bool(_FRESH.match(rhs)) or (rhs.startswith("&") and rhs[1:] in derefs)
+        (copied if fresh else aliased).append(path)
+    return sorted(set(copied)), sorted(set(aliased) - set(copied))
 
 
 def extract(tools):
@@ -167,4 +208,18 @@ def generate(G, tools):
     out.append("Definition mapwalk_allow : list string := %s.\n" % strlist([e[0] for e in read_allowlist("mapwalk_allowlist.txt")]))
     out.append("Definition mapwalk_known : list string := %s.\n" % strlist(known_keys("mapwalk:")))
     f2 = G.write("Gen/MapWalks.v", "\n".join(out) + "\n")
-    return [f1, f2]
+
+    # clone functions of the pipeline-constant operations: freshly allocated regions (regenerated) vs written regions (reviewed)
+    out = ["From Coq Require Import List String Bool.", "Import ListNotations.", "Open Scope string_scope.", ""]
+    wr = read_allowlist("clone_writes.txt")
+    for tag, name, file, func, prefix in CLONES:
+        copied, aliased = clone_regions(tools, file, func)
+        out.append("(* %s %s: regions the clone re-allocates / assigns from the source without re-allocating *)" % (file, func))
+        out.append("Definition %s_clone_copied : list string := %s." % (tag, strlist(copied)))
+        out.append("Definition %s_clone_aliased : list string := %s." % (tag, strlist(aliased)))
+        rows = [(e[1], e[2]) for e in wr if e[0] == name]
+        out.append("(* state/clone_writes.txt: (region, finding class or \"-\") written by the pass that follows *)")
+        out.append("Definition %s_clone_writes : list (string * string) := [%s]." % (tag, "; ".join("(%s, %s)" % (q(r), q(c)) for r, c in rows)))
+        out.append("Definition %s_clone_known : list string := %s.\n" % (tag, strlist(known_keys(prefix))))
+    f3 = G.write("Gen/CloneRegions.v", "\n".join(out) + "\n")
+    return [f1, f2, f3]
